@@ -12,7 +12,7 @@
 From Coq Require Import String.
 From Coq Require Import List Ascii ZArith Bool.
 From CGV Require Import Base.PyBase Base.PyVal Base.NxGraph Gen.HydroGen Hydro.Hydrogens Hydro.Squash
-     Hydro.SquashDefs Hydro.SquashProofs Hydro.SquashTotal Hydro.ShareProofs Hydro.QuotientDefs Hydro.QuotientProofs.
+     Hydro.SquashDefs Hydro.SquashProofs Hydro.SquashTotal Hydro.ShareProofs Hydro.QuotientDefs Hydro.QuotientProofs Hydro.BangBonds.
 From CGV Require Hydro.HydroCheck Hydro.SquashCheck.
 From CGV Require Resolve.GraphOps Resolve.CopyProofs Resolve.Bonding.
 Import ListNotations.
@@ -204,6 +204,29 @@ Example C10_shape_shared_atom_with_dollar_bond :
              edge_get g' 1 3 (S "bonding") = Some (VTup [VStr (S "$a1"); VStr (S "$a1")]).
 Proof. exact shape_shared_atom_with_dollar_bond. Qed.
 
+(** ------------------------------------------------------------------ `!` pairs in bond creation
+    The bond-creation fold of the resolver component (Resolve/Bonding.v over the GENERATED `compatible`)
+    depends on descriptor texts only through compatibility, equality and the order digit: any renaming that
+    preserves these three renames the created bonds and the left-over tables and changes nothing else. *)
+Theorem C10_bond_creation_renaming : forall legacy (r : pystr -> pystr) (P : pystr -> Prop),
+  (forall d, P d -> d <> []) -> (forall d, P d -> r d <> []) ->
+  (forall a b, P a -> P b -> BondingDefs.compat_str legacy (r a) (r b) = BondingDefs.compat_str legacy a b) ->
+  (forall a b, P a -> P b -> str_eqb (r a) (r b) = str_eqb a b) ->
+  (forall a, P a -> py_last (r a) = py_last a) ->
+  forall arom edges s acc, Ps P s ->
+    Bonding.edges_from_bonding legacy arom edges (ren_state r s) (map (ren_bond r) acc)
+    = res_map (ren_out r) (Bonding.edges_from_bonding legacy arom edges s acc).
+Proof. exact edges_from_bonding_ren. Qed.
+(** Instance (BigSmiles convention): writing the `$lab` descriptors with lab in a label set L as `!lab` - the
+    tables containing no empty descriptor and no descriptor already written `!` with a label of L - gives the
+    same bonds between the same atoms with the same orders and the same left-over descriptors; only the text
+    on those bonds changes.  Hence the `!` bonds of an overlapping description are exactly the cut bonds of
+    the same description read as an ordinary cut of the molecule with the shared atoms duplicated. *)
+Theorem C10_bang_bonds_like_dollar : forall L arom edges s, Ps (bang_free L) s ->
+  Bonding.edges_from_bonding true arom edges (ren_state (bangify L) s) []
+  = res_map (ren_out (bangify L)) (Bonding.edges_from_bonding true arom edges s []).
+Proof. exact bang_bonds_like_dollar. Qed.
+
 (** one level up (bond creation, Resolve/Bonding.v with the generated [compatible]): a single descriptor pair
     between two coarse nodes makes exactly one bond — u-v for the `$` pair, v'-v for the `!` pair *)
 Theorem C10_single_pair_bond : forall legacy arom A B x y c t o, A <> B -> (c = "$"%char \/ c = "!"%char) ->
@@ -261,3 +284,5 @@ Print Assumptions C10_squash_memberships.
 Print Assumptions C10_share_vs_cut_many.
 Print Assumptions C10_share_vs_cut_many_decidable.
 Print Assumptions C10_share_vs_cut_pairs.
+Print Assumptions C10_bond_creation_renaming.
+Print Assumptions C10_bang_bonds_like_dollar.
